@@ -4,6 +4,9 @@
 #ifndef VC_C16_H
 #define VC_C16_H
 #ifdef VC_CBMC
+#ifndef VC_BS
+#define VC_BS 48     /* size-class constant of per-class runs; the plan passes -DVC_BS=<class> */
+#endif
 
 /* ---- spec helpers (plain C, no quantifiers) ---- */
 #define VC_POW2(a) ((a) != 0 && (((a) & ((a)-1)) == 0))
@@ -74,5 +77,94 @@ __CPROVER_requires(1)
 __CPROVER_ensures(__CPROVER_return_value == (x == 0 || VC_POW2(x)))
 __CPROVER_assigns();
 
+#endif
+#endif
+
+#ifdef VC_CBMC
+/* ---------- second part: address arithmetic ---------- */
+#ifdef VC_C16_PTR
+
+/* logical variables fixed by the harness (tie pre- to post-state) */
+size_t g_idx;      /* block index inside the page area */
+size_t g_off;      /* interior offset inside the block */
+size_t g_area;     /* byte size of the modelled page area */
+
+/* interior pointer -> block start.  Two contracts: power-of-two classes through the shift, every
+   other class through the modulo with the class constant VC_BS (one run per size class). */
+mi_block_t* _mi_page_ptr_unalign(const mi_page_t* page, const void* p)
+__CPROVER_requires(__CPROVER_is_fresh(page, sizeof(mi_page_t)))
+__CPROVER_requires(g_area >= 1 && g_area <= MI_MEDIUM_PAGE_SIZE)
+__CPROVER_requires(__CPROVER_is_fresh(page->page_start, g_area))
+#ifdef VC_SHIFT_PATH
+__CPROVER_requires(page->block_size_shift >= 3 && page->block_size_shift <= 16)
+__CPROVER_requires(page->block_size == ((size_t)1 << page->block_size_shift))
+__CPROVER_requires(g_idx < 65536 && g_off < page->block_size && ((g_idx << page->block_size_shift) + g_off) < g_area)
+__CPROVER_requires(p == page->page_start + (g_idx << page->block_size_shift) + g_off)
+__CPROVER_ensures((uint8_t*)__CPROVER_return_value == page->page_start + (g_idx << page->block_size_shift))
+#else
+__CPROVER_requires(page->block_size_shift == 0 && page->block_size == VC_BS)
+__CPROVER_requires(g_idx < 65536 && g_off < VC_BS && g_idx * VC_BS + g_off < g_area)
+__CPROVER_requires(p == page->page_start + g_idx * VC_BS + g_off)
+__CPROVER_ensures((uint8_t*)__CPROVER_return_value == page->page_start + g_idx * VC_BS)
+#endif
+__CPROVER_assigns();
+
+/* span bin of a slice count: within the table, monotone is a lemma (two calls) */
+static inline size_t mi_slice_bin8(size_t slice_count)
+__CPROVER_requires(slice_count <= MI_SLICES_PER_SEGMENT)
+__CPROVER_ensures(__CPROVER_return_value <= MI_SEGMENT_BIN_MAX)
+__CPROVER_ensures(slice_count <= 8 ==> __CPROVER_return_value == slice_count)
+__CPROVER_assigns();
+
+/* fast division used by the heap walk: magic/shift from the real mi_get_fast_divisor */
+static void mi_get_fast_divisor(size_t divisor, uint64_t* magic, size_t* shift)
+__CPROVER_requires(divisor > 0 && divisor <= UINT32_MAX)
+__CPROVER_requires(__CPROVER_is_fresh(magic, sizeof(*magic)) && __CPROVER_is_fresh(shift, sizeof(*shift)))
+__CPROVER_ensures(*shift <= 32 && ((uint64_t)1 << *shift) >= divisor && (*shift == 0 || ((uint64_t)1 << (*shift - 1)) < divisor))
+__CPROVER_assigns(*magic, *shift);
+
+#endif /* VC_C16_PTR */
+
+#ifdef VC_C16_SEG
+mi_segment_t* g_seg;   /* logical variable: the segment object */
+/* pointer -> segment: every address in (seg, seg + MI_SEGMENT_SIZE] maps to seg (the `- 1` makes the
+   huge-aligned case p == seg + MI_SEGMENT_SIZE work) */
+static inline mi_segment_t* _mi_ptr_segment(const void* p)
+__CPROVER_requires(__CPROVER_is_fresh(g_seg, MI_SEGMENT_SIZE))
+__CPROVER_requires(g_off >= 1 && g_off <= MI_SEGMENT_SIZE && p == (uint8_t*)g_seg + g_off)
+__CPROVER_ensures(__CPROVER_return_value == g_seg)
+__CPROVER_assigns();
+
+/* pointer -> page: the slice entry of p points back to the head of its span */
+static inline mi_page_t* _mi_segment_page_of(const mi_segment_t* segment, const void* p)
+__CPROVER_requires(__CPROVER_is_fresh(segment, sizeof(mi_segment_t)))   /* header only: a 4 MiB object exhausts the SAT solver */
+__CPROVER_requires(g_off >= 1 && g_off < MI_SEGMENT_SIZE && p == (uint8_t*)segment + g_off)
+/* SWF_at(idx): slice idx carries the byte distance to the head g_idx <= idx of its span */
+__CPROVER_requires(g_idx <= (g_off >> MI_SEGMENT_SLICE_SHIFT) && (g_off >> MI_SEGMENT_SLICE_SHIFT) <= MI_SLICES_PER_SEGMENT)
+__CPROVER_requires(segment->slices[g_off >> MI_SEGMENT_SLICE_SHIFT].slice_offset == ((g_off >> MI_SEGMENT_SLICE_SHIFT) - g_idx) * sizeof(mi_slice_t))
+__CPROVER_ensures(__CPROVER_return_value == (mi_page_t*)&segment->slices[g_idx])
+__CPROVER_assigns();
+
+/* start of the page area of a span: inside the span, 16-aligned, block-size aligned for classes up to
+   MI_MAX_ALIGN_GUARANTEE, and page_size is what is left */
+size_t g_psize;
+static uint8_t* _mi_segment_page_start_from_slice(const mi_segment_t* segment, const mi_slice_t* slice, size_t block_size, size_t* page_size)
+__CPROVER_requires(__CPROVER_is_fresh(segment, sizeof(mi_segment_t)))
+__CPROVER_requires(g_idx < MI_SLICES_PER_SEGMENT && slice == &segment->slices[g_idx])
+__CPROVER_requires(slice->slice_count >= 1 && slice->slice_count <= MI_SLICES_PER_SEGMENT - g_idx)
+__CPROVER_requires(block_size == VC_BS)
+__CPROVER_requires(((uintptr_t)segment % MI_SEGMENT_SIZE) == 0)    /* segments are MI_SEGMENT_SIZE aligned */
+__CPROVER_requires(__CPROVER_is_fresh(page_size, sizeof(size_t)))
+/* (offsets, not pointer relations: the page area lies beyond the modelled mi_segment_t object) */
+__CPROVER_ensures(__CPROVER_same_object(__CPROVER_return_value, segment))
+__CPROVER_ensures(__CPROVER_POINTER_OFFSET(__CPROVER_return_value) >= g_idx * MI_SEGMENT_SLICE_SIZE)
+__CPROVER_ensures(*page_size <= (size_t)slice->slice_count * MI_SEGMENT_SLICE_SIZE)
+__CPROVER_ensures(__CPROVER_POINTER_OFFSET(__CPROVER_return_value) + *page_size == (g_idx + slice->slice_count) * MI_SEGMENT_SLICE_SIZE)
+__CPROVER_ensures((__CPROVER_POINTER_OFFSET(__CPROVER_return_value) % 16) == 0)
+__CPROVER_ensures((VC_BS > 0 && VC_BS <= MI_MAX_ALIGN_GUARANTEE && (size_t)slice->slice_count * MI_SEGMENT_SLICE_SIZE >= 2*(size_t)VC_BS) ==>
+                  (((uintptr_t)__CPROVER_return_value) % (VC_BS > 0 ? VC_BS : 1)) == 0)
+/* at least one block fits when the span was sized for the class */
+__CPROVER_ensures(((size_t)slice->slice_count * MI_SEGMENT_SLICE_SIZE >= 8*(size_t)VC_BS || VC_BS > MI_MAX_ALIGN_GUARANTEE) ==> *page_size >= VC_BS)
+__CPROVER_assigns(*page_size);
 #endif
 #endif
